@@ -10,10 +10,7 @@ Taint lattice per expression:  None | U(sens) | CU(sens) | CU-mapping(sens)
   sens = "int"      elements are small ints (qrules edge / node ids): iteration order does
                     not depend on PYTHONHASHSEED
          "history"  elements hash deterministically but the order depends on insertion history
-         "seed"     POSITIVE evidence that the elements hash through str (SymPy objects, strings - an annotation, a
-                    constructor, ``.free_symbols`` / ``.atoms()``): order depends on the seed -> violation at a sink
-         "unknown"  the element type could not be established: a flow to an ordered sink is UNDECIDED (exit 2) -
-                    never a violation and never a pass
+         "seed"     elements hash through str (SymPy objects, strings): order depends on the seed
 """
 
 from __future__ import annotations
@@ -37,8 +34,7 @@ SEED_SET_ATTRS = {"free_symbols"}
 SEED_SET_CALLS = {"atoms", "find"}
 SANITIZERS = {"sorted", "min", "max", "len", "sum", "any", "all", "bool", "isinstance", "hash", "frozenset_len", "natural_sorting"}
 ORDERED_BUILDERS = {"tuple", "list"}
-ORDER = {"int": 0, "history": 1, "unknown": 2, "seed": 3}
-SEED_TYPES = re.compile(r"\b(Symbol|Expr|Basic|Rational|Indexed|IndexedBase|Float|Integer|Number|str|Particle|State|bytes)\b")
+ORDER = {"int": 0, "history": 1, "seed": 2}
 
 
 MAPPING_ANN = re.compile(r"\s*(collections\.)?(dict|Dict|Mapping|MutableMapping|defaultdict|DefaultDict|OrderedDict)\b")
@@ -63,11 +59,10 @@ def worst(a: str, b: str) -> str:
 
 
 class Taint:
-    __slots__ = ("kind", "sens", "origin", "mapping", "pair")
+    __slots__ = ("kind", "sens", "origin", "mapping")
 
-    def __init__(self, kind: str, sens: str, origin: str, mapping: bool = False, pair: bool = False):
+    def __init__(self, kind: str, sens: str, origin: str, mapping: bool = False):
         self.kind, self.sens, self.origin, self.mapping = kind, sens, origin, mapping and kind == "CU"
-        self.pair = pair and kind == "CU"  # one (key, value) item of a mapping whose VALUES are unordered: [0] is clean, [1] is U
 
     def __repr__(self) -> str:
         return f"{self.kind}{'-mapping' if self.mapping else ''}({self.sens}: {self.origin})"
@@ -86,9 +81,7 @@ def sens_of_annotation(text: str) -> str:
         return "int"
     if "Topology" in inner or "Transition" in inner:
         return "history"
-    if SEED_TYPES.search(inner):
-        return "seed"
-    return "unknown"
+    return "seed"
 
 
 def annotation_taint(text: str, origin: str) -> Taint | None:
@@ -159,14 +152,6 @@ class OrderAnalysis:
                     return inner
                 sens = self.iterable_elem_sens(expr.args[0], fn) if expr.args else "int"
                 return Taint("U", sens, f"{name}(...) at {fn.qual}")
-            if name == "map" and len(expr.args) == 2 and isinstance(expr.args[0], ast.Lambda) and len(expr.args[0].args.args) == 1:
-                # map(lambda x: E, xs) is (E for x in xs)
-                lam = expr.args[0]
-                gen = ast.GeneratorExp(elt=lam.body, generators=[ast.comprehension(target=ast.Name(id=lam.args.args[0].arg, ctx=ast.Store()), iter=expr.args[1], ifs=[], is_async=0)])
-                ast.copy_location(gen, expr)
-                gen._parent = getattr(expr, "_parent", None)  # type: ignore[attr-defined]
-                et = self.comp_elt_taint(gen, fn, depth)
-                return Taint("CU", et.sens, et.origin) if et is not None else None
             if name in ORDERED_BUILDERS or name in {"dict", "OrderedDict", "enumerate", "zip", "reversed", "iter", "map", "filter", "chain"}:
                 inner = self.taint(expr.args[0], fn, depth + 1) if expr.args else None
                 if inner is not None and inner.kind == "CU":
@@ -246,8 +231,7 @@ class OrderAnalysis:
             if name in ORDERED_BUILDERS and expr.args:
                 inner = self.taint_with(expr.args[0], fn, env, depth + 1)
                 if inner is not None and inner.kind == "U":
-                    if not self.sanitised_afterwards(expr):
-                        self.sink(fn, expr, inner, f"{name}() of an unordered container")
+                    self.sink(fn, expr, inner, f"{name}() of an unordered container")
                     return None
                 return inner
         if isinstance(expr, (ast.Tuple, ast.List)):
@@ -261,8 +245,6 @@ class OrderAnalysis:
             # a comprehension variable)
             inner = self.taint_with(expr.value, fn, env, depth + 1)
             if inner is not None and inner.kind == "CU":
-                if inner.pair and isinstance(expr.slice, ast.Constant) and expr.slice.value == 0:
-                    return None  # the key of a (key, value) item
                 return Taint("U", inner.sens, inner.origin)
             return None
         names = {n.id for n in ast.walk(expr) if isinstance(n, ast.Name)}
@@ -281,10 +263,7 @@ class OrderAnalysis:
                 self.loop_sink(fn, comp, gen.iter, it, comp)
             tgt = gen.target
             if isinstance(tgt, ast.Name):
-                if it is not None and it.kind == "CU" and self._is_items(gen.iter):
-                    env[tgt.id] = Taint("CU", it.sens, it.origin, pair=True)
-                else:
-                    env[tgt.id] = Taint("U", it.sens, it.origin) if it is not None and it.kind == "CU" and not it.mapping else None
+                env[tgt.id] = Taint("U", it.sens, it.origin) if it is not None and it.kind == "CU" and not it.mapping and not self._is_items(gen.iter) else None
             elif isinstance(tgt, ast.Tuple):
                 for i, e in enumerate(tgt.elts):
                     if isinstance(e, ast.Name):
@@ -364,9 +343,7 @@ class OrderAnalysis:
                             return "int"
         if re.search(r"(final_state|initial_state|state_ids|edge_ids|indices|range\()", txt):
             return "int"
-        if re.search(r"Rational|Symbol|sympify|\.name\b|str\(|free_symbols|\.atoms\(", txt):
-            return "seed"
-        return "unknown"
+        return "seed"
 
     def element_sens(self, elt: ast.AST, fn: FuncInfo, iter_taint: Taint | None) -> str:
         txt = unparse(elt)
@@ -379,42 +356,12 @@ class OrderAnalysis:
                 ann = unparse(d.node.annotation) if d.kind == "param" and getattr(d.node, "annotation", None) is not None else ""
                 if re.match(r"\s*int\b", ann) or re.match(r"\s*Literal\[[\d, ]+\]", ann):
                     return "int"
-            if iter_taint is not None and iter_taint.sens in {"seed", "history"}:
-                return iter_taint.sens
-            return "unknown"
+            return "int" if re.fullmatch(r"(i|j|k|idx|state_id|node_id|edge_id)", elt.id) else "seed"
         if isinstance(elt, ast.Call) and unparse(elt.func) in {"int", "len"}:
             return "int"
-        if isinstance(elt, ast.Constant):
-            return "seed" if isinstance(elt.value, (str, bytes)) else "int"
-        return "unknown"
+        return "seed"
 
     # ------------------------------------------------------------------ sinks
-    @staticmethod
-    def _call_name(call: ast.AST) -> str | None:
-        if not isinstance(call, ast.Call):
-            return None
-        f = call.func
-        return f.id if isinstance(f, ast.Name) else f.attr if isinstance(f, ast.Attribute) else None
-
-    def sanitised_afterwards(self, node: ast.Call) -> bool:
-        """``list(U)`` / ``tuple(U)`` whose arbitrary order is never observed: the sequence is the argument of a
-        sanitiser (``sorted(list(s))``, ``len(tuple(s))``, ``set(list(s))``), or it is bound to a local that is sorted
-        in place (``x = list(s); x.sort()``) before anything else reads it."""
-        parent = getattr(node, "_parent", None)
-        if isinstance(parent, ast.Call) and node in parent.args and self._call_name(parent) in SANITIZERS | {"set", "frozenset"}:
-            return True
-        if isinstance(parent, (ast.Assign, ast.AnnAssign)) and parent.value is node:
-            tgt = parent.targets[0] if isinstance(parent, ast.Assign) and len(parent.targets) == 1 else getattr(parent, "target", None)
-            block = getattr(getattr(parent, "_parent", None), "body", None)
-            if isinstance(tgt, ast.Name) and isinstance(block, list) and parent in block:
-                for st in block[block.index(parent) + 1:]:
-                    mentions = [n for n in ast.walk(st) if isinstance(n, ast.Name) and n.id == tgt.id]
-                    if not mentions:
-                        continue
-                    return (isinstance(st, ast.Expr) and isinstance(st.value, ast.Call) and isinstance(st.value.func, ast.Attribute) and st.value.func.attr == "sort"
-                            and isinstance(st.value.func.value, ast.Name) and st.value.func.value.id == tgt.id and len(mentions) == 1)
-        return False
-
     def sink(self, fn: FuncInfo, node: ast.AST, t: Taint, why: str) -> None:
         self.flows.append((fn, node, t, why))
 
@@ -456,7 +403,7 @@ class OrderAnalysis:
         out: set[str] = set()
         for node in walk_function(g.node):
             srcs: list[ast.AST] = []
-            if isinstance(node, ast.Call) and isinstance(node.func, ast.Name) and node.func.id in ORDERED_BUILDERS and node.args and not self.sanitised_afterwards(node):
+            if isinstance(node, ast.Call) and isinstance(node.func, ast.Name) and node.func.id in ORDERED_BUILDERS and node.args:
                 srcs.append(node.args[0])
             for s in srcs:
                 for d in rd.closure(rd.uses(s)):
@@ -471,7 +418,7 @@ class OrderAnalysis:
             if isinstance(node, ast.Call):
                 f = node.func
                 name = f.id if isinstance(f, ast.Name) else f.attr if isinstance(f, ast.Attribute) else None
-                if name in ORDERED_BUILDERS and node.args and not self.sanitised_afterwards(node):
+                if name in ORDERED_BUILDERS and node.args:
                     t = self.taint(node.args[0], fn)
                     if t is not None and t.kind == "U":
                         self.sink(fn, node, t, f"{name}() of an unordered container")
@@ -548,8 +495,7 @@ def check_order(ctx: Check, tree: Tree, reach: dict[str, FuncInfo]) -> None:
         if q.startswith("ampform"):
             oa.scan(fn)
     seen = set()
-    counts = {"int": 0, "history": 0, "seed": 0, "unknown": 0}
-    undecided = []
+    counts = {"int": 0, "history": 0, "seed": 0}
     for fn, node, t, why in oa.flows:
         sig = (fn.qual, unparse(node)[:80], why)
         if sig in seen:
@@ -561,8 +507,6 @@ def check_order(ctx: Check, tree: Tree, reach: dict[str, FuncInfo]) -> None:
         if t.sens == "seed":
             ctx.violation("R-ORDER", f"{fn.qual}::{unparse(node)[:80]}::unordered-to-ordered", where, what,
                           "elements hash through str (SymPy objects / strings): the resulting order - and with it the structure of the model - depends on PYTHONHASHSEED")
-        elif t.sens == "unknown":
-            undecided.append(f"{where} {what}")
         elif t.sens == "history":
             ctx.advisory("R-ORDER", where, what + " - order depends on insertion history only; harmless iff equal keys carry equal values (decided by C07 R-PROV)")
         else:
@@ -573,9 +517,5 @@ def check_order(ctx: Check, tree: Tree, reach: dict[str, FuncInfo]) -> None:
         from ..loader import AnalysisError
 
         raise AnalysisError(f"only {total} unordered->ordered flows found on the formulate path (source/sink tables no longer match the code)")
-    if undecided:
-        from ..loader import AnalysisError
-
-        raise AnalysisError("R-ORDER: an unordered container whose element type could not be established reaches an ordered sink: " + "; ".join(undecided[:3]))
     if counts["seed"] == 0:
         ctx.ok("R-ORDER", "src/ampform", f"{total} unordered->ordered flows on the formulate path: {counts['int']} over int ids, {counts['history']} history-only, 0 hash-seed sensitive")
